@@ -106,9 +106,13 @@ class ProxyCommand(ClosingContextManager):
 
                 r, w, x = select([self.process.stdout], [], [], select_timeout)
                 if r and r[0] == self.process.stdout:
-                    buffer += os.read(
+                    data = os.read(
                         self.process.stdout.fileno(), size - len(buffer)
                     )
+                    if len(data) == 0:
+                        # EOF: the proxy command closed its stdout / exited
+                        break
+                    buffer += data
             return buffer
         except socket.timeout:
             if buffer:
